@@ -123,12 +123,23 @@ def _expected_ok(parsed, val, field, reader):
     return False
 
 
-def _precision_loss_ok(parsed, val):
-    """spilled real may come back with fewer digits: within 50% and same sign."""
+def _precision_loss_ok(parsed, val, field=None):
+    """spilled real may come back with fewer digits: within 50% and same sign -
+    and with as many decimals as its columns can hold: if it was printed with
+    precision p', printing it with p' + 1 must not fit."""
     if not isinstance(parsed, SReal): return False
     a = z3.If(val.e >= 0, val.e, -val.e)
     d = parsed.e - val.e
-    return z3.And(d <= a / 2, -d <= a / 2)
+    ok = z3.And(d <= a / 2, -d <= a / 2)
+    if field is not None and z3.is_app(parsed.e) and parsed.e.num_args() == 1:
+        name = parsed.e.decl().name()          # R_<kind><p'>
+        typ, w, p, s = field
+        if name.startswith('R_' + typ) and name[3:].isdigit() and parsed.e.arg(0).eq(val.e):
+            p1 = int(name[3:]) + 1
+            if p1 <= p:
+                r1 = strs.rounded_value(typ, p1, val.e)
+                ok = z3.And(ok, strs.natural_length(typ, p1, val.e, r1) > abs(w))
+    return ok
 
 
 def _witness(m, vals):
@@ -188,7 +199,7 @@ def task_record(table_idx, rec, mode, field=None, namelen='full', field2=None, s
             c.prove(False, 'parse length')
         for i, fld in enumerate(fields):
             if i in spilled and fld[0] in 'ef':
-                ok = _precision_loss_ok(parsed[i], vals[i])
+                ok = _precision_loss_ok(parsed[i], vals[i], fld)
             else:
                 ok = _expected_ok(parsed[i], vals[i], fld, reader)
             if isinstance(ok, SBool): ok = ok.e
@@ -211,6 +222,48 @@ def task_record(table_idx, rec, mode, field=None, namelen='full', field2=None, s
     tr = report.summarize('%s/%s/%s%s%s' % (table[0], rec, mode, '' if field is None else ':%d' % field, '' if field2 is None else '+%d' % field2),
                           res, failures, samples,
                           extra=dict(distinct_obligations=len(distinct)))
+    return tr
+
+
+WRITERS = ['incon-nseq', 'incon-nadd', 'block-nseq', 'connection-nseq', 'generator-nseq']
+
+def task_writer(which):
+    """File-level writers of t2data must not swallow the error of a value that cannot be
+    represented in its columns (an integer one past its '5d' field): dat.write() fails
+    loudly; it never silently drops or corrupts the record."""
+    ld, fs = _load()
+    T, G = ld.t2data, ld.t2grids
+    failures, samples = [], []
+    def h(c):
+        fs.files.clear()
+        dat = T.t2data()
+        r = G.rocktype(); dat.grid.add_rocktype(r)
+        blks = [G.t2block(n, 1.0, r) for n in (' a  1', ' b  2', ' c  3')]
+        for b in blks: dat.grid.add_block(b)
+        con = G.t2connection([blks[0], blks[1]], 1, [1., 1.], 1., 0.)
+        dat.grid.add_connection(con)
+        dat.grid.add_connection(G.t2connection([blks[1], blks[2]], 1, [1., 1.], 1., 0.))
+        big = c.int('big', 100000, 999999)
+        for b in blks: dat.incon[b.name] = [0.1, [1.e5, 20.]]
+        gen = T.t2generator(name=' ge 1', block=' b  2', gx=1.0)
+        dat.add_generator(gen); dat.add_generator(T.t2generator(name=' ge 2', block=' c  3', gx=2.0))
+        if which == 'incon-nseq': dat.incon[' b  2'] = [0.1, [1.e5, 20.], big, 1]
+        elif which == 'incon-nadd': dat.incon[' b  2'] = [0.1, [1.e5, 20.], 1, big]
+        elif which == 'block-nseq': blks[1].nseq = big; blks[1].nadd = 1
+        elif which == 'connection-nseq': con.nseq = big
+        elif which == 'generator-nseq': gen.nseq = big
+        try:
+            dat.write('w.dat')
+        except ValueError:
+            return 'raised'
+        c.prove(False, 'an over-wide integer makes the file writer fail loudly')
+        m = c.failures[-1]['model']
+        failures.append(dict(key='writer/%s/silent' % which, what='t2data.write() returned normally although %s = %s does not fit its 5 columns' % (which, sym.model_value(m, big.e)),
+                             replay=dict(writer=which, big=sym.model_value(m, big.e))))
+        return 'returned'
+    res = sym.explore(h, sym.Ctx(timeout_ms=30000), max_paths=50)
+    tr = report.summarize('writer/%s' % which, res, failures, [dict(writer=which, obligation='dat.write() raises ValueError for an integer in [100000, 999999] in a 5d field')],
+                          extra=dict(distinct_obligations=0))
     return tr
 
 
@@ -280,7 +333,8 @@ def run(tier, seed, rep):
                     if f[0] == 'e' and fields[i + 1][0] == 'e':
                         tasks.append((task_record, dict(table_idx=ti, rec=rec, mode='spill', field=i, field2=i + 1)))
     if tier == 'thorough':
-        for t in tasks: t[1].update(second=10, seed=seed)   # every 10th query re-decided by /usr/bin/z3
+        for t in tasks: t[1].update(second=10, seed=seed)
+    tasks += [(task_writer, dict(which=w)) for w in WRITERS]   # every 10th query re-decided by /usr/bin/z3
     # long tasks (%f over-wide) first
     tasks.sort(key=lambda t: 0 if (t[1].get('mode') == 'spill') else 1)
     n, bad = validate_printf_model(rep)
